@@ -899,7 +899,8 @@ pub fn get_value(
         }
         #[cfg(unix)]
         Some(Function::HasXattr) => {
-            if let Some(entry) = entry {
+            // (a member of an archive has none: the attributes of the archive file are not its own)
+            if let Some(entry) = entry.filter(|_| file_info.is_none()) {
                 // the entry's own attribute, read by path: a link is not followed, nothing is opened
                 if let Ok(xattr) = xattr::get(entry.path(), &function_arg) {
                     return Variant::from_bool(xattr.is_some());
@@ -910,7 +911,8 @@ pub fn get_value(
         }
         #[cfg(unix)]
         Some(Function::Xattr) => {
-            if let Some(entry) = entry {
+            // (a member of an archive has none: the attributes of the archive file are not its own)
+            if let Some(entry) = entry.filter(|_| file_info.is_none()) {
                 if let Ok(Some(xattr)) = xattr::get(entry.path(), &function_arg) {
                     if let Ok(value) = String::from_utf8(xattr) {
                         return Variant::from_string(&value);
@@ -922,7 +924,8 @@ pub fn get_value(
         }
         #[cfg(target_os = "linux")]
         Some(Function::HasCapabilities) => {
-            if let Some(entry) = entry {
+            // (a member of an archive has none: the attributes of the archive file are not its own)
+            if let Some(entry) = entry.filter(|_| file_info.is_none()) {
                 if let Ok(caps_xattr) = xattr::get(entry.path(), "security.capability") {
                     return Variant::from_bool(caps_xattr.is_some());
                 }
@@ -932,7 +935,8 @@ pub fn get_value(
         }
         #[cfg(target_os = "linux")]
         Some(Function::HasCapability) => {
-            if let Some(entry) = entry {
+            // (a member of an archive has none: the attributes of the archive file are not its own)
+            if let Some(entry) = entry.filter(|_| file_info.is_none()) {
                 if let Ok(Some(caps_xattr)) = xattr::get(entry.path(), "security.capability") {
                     let caps_string = crate::util::capabilities::parse_capabilities(caps_xattr);
                     return Variant::from_bool(caps_string.contains(&function_arg));
